@@ -389,6 +389,15 @@ static void init_s3() {
         good("supplementary-comment-at-fill-edge-" + pn, "<a><!--" + ps + "\xF4\x8F\xBF\xBF--></a>");
         good("supplementary-cdata-pi-at-fill-edge-" + pn, "<a><![CDATA[" + ps.substr(12) + "\xF0\x90\x80\x80]]><?p \xF0\x90\x80\x80?></a>");
     }
+    // error messages are formatted into bounded buffers (2047 characters): constructs whose NAME or VALUE ends up in a message, with lengths around and
+    // far beyond that bound, in every kind of error (fatal, validity, warning-level)
+    for (int len : {2030, 2046, 2047, 2048, 2100, 4200, 70000}) {
+        std::string nm(len, 'A'), ls = std::to_string(len);
+        bad("long-name-in-message-mismatched-end-tag-" + ls, "<" + nm + "></y></" + nm + ">");
+        bad("long-name-in-message-undeclared-entity-" + ls, "<a>&" + nm + ";</a>");
+        bad("long-name-in-message-duplicate-attribute-" + ls, "<a " + nm + "='1' " + nm + "='2'/>");
+        bad("long-name-in-message-bad-pi-target-" + ls, "<a><?xml" + nm.substr(0, 0) + " " + nm + "?></a>");
+    }
     bad("charref-wraps-32-hex", "<a>&#x100000041;</a>"); bad("charref-wraps-32-dec", "<a>&#4294967361;</a>"); bad("charref-wraps-32-attr", "<a x='&#x100000041;'/>");
     bad("charref-wraps-32-supplementary", "<a>&#x200010000;</a>"); bad("charref-wraps-64-hex", "<a>&#x10000000000000041;</a>"); bad("charref-wraps-64-dec", "<a>&#18446744073709551681;</a>");
     bad("charref-wraps-32-via-entity", "<!DOCTYPE a [<!ENTITY e '&#38;#x100000041;'>]><a>&e;</a>", true);
